@@ -49,6 +49,8 @@ def r1_numbering(R) -> None:
             f'enumerate(..., start={text(start) if start is not None else 0}): variable numbers must start at 1', where=f.where(ds[0]))
     # which name lists are chained, in which order: read on values (C03.R5 owns the reader)
     order = c03.numbering_order(R, f, f.symexec(deep=True))
+    if '?' in order:
+        raise Unknown(f'{BFD}: which kinds of names are numbered, in which order, was not read (read as {order}): the name lists are built in a form this rule does not model')
     R.check(order == ['ENDOGENOUS', 'EXOGENOUS', 'PARAMETER', 'ERROR'], BFD, f'numbering-order:{order}',
             'numbering follows NAMES = ENDOGENOUS + EXOGENOUS + PARAMETERS + ERRORS', f'variables are numbered in the order {order}', where=f.where(ds[0]))
     tg = [x.id for x in ast.walk(dc.generators[0].target) if isinstance(x, ast.Name)]
